@@ -117,3 +117,35 @@ Proof.
     rewrite S. apply lookup_set1_same. exact Hk'.
   - apply lookup_set1_other; assumption.
 Qed.
+
+Lemma append_nil_r_s (s : string) : (s ++ "")%string = s.
+Proof. induction s as [|c s IH]; cbn; [reflexivity | rewrite IH; reflexivity]. Qed.
+Lemma append_assoc_s (a b c : string) : ((a ++ b) ++ c)%string = (a ++ (b ++ c))%string.
+Proof. induction a as [|x a IH]; cbn; [reflexivity | rewrite IH; reflexivity]. Qed.
+
+(* a string start value is a START value: Sum / Fold with iadd over strings is init ++ the concatenation, in order *)
+Lemma str_fold_concat_lemma : forall strs s, fold_loop OIadd (VStr s) (map VStr strs) = Ok (VStr (s ++ String.concat "" strs)).
+Proof.
+  induction strs as [|x xs IH]; intro s.
+  - cbn. rewrite append_nil_r_s. reflexivity.
+  - cbn [map fold_loop apply_op iadd]. rewrite IH. f_equal. f_equal. rewrite append_assoc_s. f_equal.
+    destruct xs as [|y ys]; cbn [String.concat].
+    + rewrite append_nil_r_s. reflexivity.
+    + reflexivity.
+Qed.
+
+(* Sum() over integers is the arithmetic sum added to the start value; over lists (any iterables whose iteration is
+   modelled) it is the start list extended by every item's elements in order, and it stays the object init() allocated *)
+Lemma int_fold_sum_lemma : forall zs a, fold_loop OIadd (VInt a) (map VInt zs) = Ok (VInt (a + fold_right Z.add 0%Z zs)).
+Proof.
+  induction zs as [|z zs IH]; intro a; cbn [map fold_loop apply_op iadd as_num fold_right].
+  - f_equal. f_equal. lia.
+  - rewrite IH. f_equal. f_equal. lia.
+Qed.
+Lemma list_fold_concat_lemma : forall (ls : list (nat * list val)) i acc,
+  fold_loop OIadd (VList i acc) (map (fun p => VList (fst p) (snd p)) ls) = Ok (VList i (acc ++ List.concat (map snd ls))).
+Proof.
+  induction ls as [|[j xs] ls IH]; intros i acc; cbn [map fold_loop apply_op iadd iter_items fst snd List.concat].
+  - rewrite app_nil_r. reflexivity.
+  - rewrite IH. rewrite app_assoc. reflexivity.
+Qed.
